@@ -167,6 +167,7 @@ func (c *combiningFrame) combine(n int) {
 				break
 			} else {
 				// Probe quadratically.
+				verifCombineProbe(try, c.cap)
 				idx = (idx + try) & c.mask
 			}
 		}
